@@ -181,9 +181,18 @@ def ob_log_step(bits, width, depth, cfg, v, timeout_ms):
 
 
 def make_real_log(bits, width, depth, max_count, num_reserved):
+    """real log sketch for a replay.  A model's (max_count, num_reserved) pair need not be a configuration the constructor
+    accepts (it refuses pairs for which it finds no base): keep num_reserved -- the replays depend on it -- and fall back
+    to other max_count values until one is accepted"""
     C = cmh.cm()
     cls = C.CountMinLog16 if bits == 16 else C.CountMinLog8
-    return cls(width, depth, max_count, num_reserved)
+    last = None
+    for mc in (max_count, 2 ** 32 - 1, 10 ** 6, 2 * (num_reserved + 1) + 1000, num_reserved + 300, num_reserved + 10, num_reserved + 3):
+        try:
+            return cls(width, depth, mc, num_reserved)
+        except ValueError as e:
+            last = e
+    raise last
 
 
 def replay_log_step(cex):
